@@ -122,6 +122,10 @@ Additions for nextflow/scripts/batchie.py (the orchestration script):
                       tail of both branches - `if c: A else: B; rest` is `if c then [A; rest] else [B; rest]`, which is what Python
                       executes on either path (a jump inside A or B ends that path as usual).  A variable only one branch assigns
                       is bound only in that branch's copy of the tail.  Without the key such an `if` is refused as before.
+  cfg["retype"]       {variable: [other types]}: a plain assignment `x = e` whose value has exactly one of the other declared
+                      types (not the one of cfg["vars"]) rebinds x at that type (`screen_metadata = screen_metadata[0]`: the list
+                      of matches becomes its first element); later reads see the new type.  Inside a loop or an `if` that
+                      carries x the state tuple keeps the old type, so the generated term is ill-typed (fail closed).
 """
 import ast
 
@@ -790,6 +794,12 @@ class Tr:
             if isinstance(tgt, ast.Name):
                 ty = self.var_type(tgt.id)
                 v, vt = self.expr(st.value, env, hoist)
+                if tgt.id[:-len(SUFFIX)] in self.cfg.get("retype", {}) and vt != ty and vt not in (NONE_T, EMPTY_T):
+                    # cfg["retype"]: a variable the source re-uses at another declared type (x = x[0])
+                    alts = [parse_type(t) for t in self.cfg["retype"][tgt.id[:-len(SUFFIX)]]]
+                    if vt not in alts:
+                        raise Unsupported("assignment of a %s to %s, declared %s or %s" % (vt, tgt.id, ty, alts))
+                    ty = vt
                 v = self.need(v, vt, ty, hoist)
                 env2 = dict(env)
                 env2[tgt.id] = ty
@@ -854,7 +864,10 @@ class Tr:
         if isinstance(st, ast.Return):
             if st.value is None:
                 st = ast.Return(value=ast.Constant(value=None))     # `return` is `return None`
+            mark = len(hoist)
             v, vt = self.expr(st.value, env, hoist)
+            if self.ret_type[0] == "tuple" and isinstance(st.value, ast.Tuple):
+                del hoist[mark:]      # need_ret evaluates the components itself: do not bind their hoisted calls twice
             v = self.need_ret(v, vt, st.value, env, hoist)
             return self.bind_hoist(hoist, k(env, jump=("return", v)), ind)
         if isinstance(st, ast.If) and self.default_idiom(st, env) is not None:
